@@ -35,7 +35,7 @@ def cases(tier, seed):
     dims = [('ninst', [1, 2]), ('nbeads', [1, 0, 2]), ('nsamples', [2, 1, 3]), ('units', ['mixed', 'all-mef', 'channel', 'none', 'all-rfi']),
             ('cont', ['int', 'float']), ('plot', [False, True]), ('hist', [False, True]), ('outpath', ['default', 'explicit', 'relative']),
             ('nfl', [2, 3, 4, 11]), ('cluster', ['all', 'one']), ('wbname', ['experiment', 'cells', 'samples.x', 'xls', 'Tables 2020-01']),
-            ('ids', ['text', 'numbers'])]
+            ('ids', ['text', 'numbers']), ('hdr', ['plain', 'blanks'])]
     if tier == 'quick':
         cfgs = [dict(ninst=1, nbeads=1, nsamples=2, units='mixed', cont='int', plot=True, hist=True, outpath='default', nfl=2, cluster='all'),
                 dict(ninst=1, nbeads=1, nsamples=1, units='all-mef', cont='int', plot=True, hist=False, outpath='explicit', nfl=3, cluster='all'),
@@ -48,7 +48,8 @@ def cases(tier, seed):
                 dict(ninst=1, nbeads=0, nsamples=1, units='channel', cont='int', plot=False, hist=False, outpath='default', nfl=2, cluster='all', wbname='samples.x'),
                 dict(ninst=1, nbeads=0, nsamples=1, units='none', cont='int', plot=False, hist=True, outpath='default', nfl=2, cluster='all', wbname='xls'),
                 dict(ninst=2, nbeads=2, nsamples=2, units='mixed', cont='int', plot=True, hist=True, outpath='default', nfl=2, cluster='all', ids='numbers'),
-                dict(ninst=1, nbeads=1, nsamples=3, units='mixed', cont='int', plot=True, hist=True, outpath='relative', nfl=2, cluster='all')]
+                dict(ninst=1, nbeads=1, nsamples=3, units='mixed', cont='int', plot=True, hist=True, outpath='relative', nfl=2, cluster='all'),
+                dict(ninst=1, nbeads=1, nsamples=2, units='mixed', cont='int', plot=False, hist=True, outpath='default', nfl=3, cluster='all', hdr='blanks')]
     else:
         cfgs = list(explore.deviations(dims, 1)) + [c for c in explore.deviations(dims, 2) if c['_dev'] == 2 and c['plot'] and (c['nfl'] == 3 or c['hist'])]
     for cfg in cfgs:
@@ -59,6 +60,13 @@ def cases(tier, seed):
 
 def bounds(tier, seed):
     return {'roundtrip': 'all 6^4 2x2 tables + 3x3 latin arrangements', 'runs': '5 configurations' if tier == 'quick' else 'deviation ball (<=1, and <=2 with plots) + shipped example'}
+
+
+def units_channel(header):
+    """channel named by a '<channel> Units' header (the documented pattern: blanks around and between are allowed), else None"""
+    import re
+    m = re.match(r'^\s*(\S(?:.*\S)?)\s+Units\s*$', str(header))
+    return m.group(1) if m else None
 
 
 def same_cell(a, b):
@@ -217,7 +225,7 @@ def build(cfg, d):
         for ch in s['units']:
             if ch not in ucols:
                 ucols.append(ch)
-    wg.write_workbook(wb, insts, beads, samples, mef_channels_cols=mcols, unit_channels_cols=ucols)
+    wg.write_workbook(wb, insts, beads, samples, mef_channels_cols=mcols, unit_channels_cols=ucols, header_style=cfg.get('hdr', 'plain'))
     return wb, insts, beads, samples, mcols, ucols
 
 
@@ -257,8 +265,8 @@ def check_output(res, sig, what, inp, outp, d, plot, hist, one, bead_ids_channel
         need_b += ['%s Detector Volt.' % ch, '%s Amp. Type' % ch, '%s Beads Model' % ch, '%s Beads Params. Names' % ch, '%s Beads Params. Values' % ch]
     need_s = ['Analysis Notes', 'Number of Events', 'Acquisition Time (s)']
     for c in scols:
-        if c.endswith(' Units'):
-            ch = c[:-6]
+        if units_channel(c):
+            ch = units_channel(c)
             need_s += ['%s %s' % (ch, x) for x in ('Detector Volt.', 'Amp. Type', 'Mean', 'Geom. Mean', 'Median', 'Mode', 'Std', 'CV', 'Geom. Std', 'Geom. CV', 'IQR', 'RCV')]
     if len(out['Beads']) or bead_ids_channels:
         miss = [c for c in need_b if c not in bcols]
@@ -287,7 +295,7 @@ def check_output(res, sig, what, inp, outp, d, plot, hist, one, bead_ids_channel
         return False
     if hist:
         h = out['Histograms']
-        units_cells = sum(1 for c in scols if c.endswith(' Units') for v in out['Samples'][c].tolist() if isinstance(v, str))
+        units_cells = sum(1 for c in scols if units_channel(c) for v in out['Samples'][c].tolist() if isinstance(v, str))
         if len(h) != 2 * units_cells:
             res.violation(sig + ':histograms', '%s: Histograms sheet has %d rows for %d (sample, channel) pairs with units' % (what, len(h), units_cells), one)
             return False
@@ -295,8 +303,8 @@ def check_output(res, sig, what, inp, outp, d, plot, hist, one, bead_ids_channel
         want_rows = []
         for _, srow in out['Samples'].iterrows():
             for c_ in scols:
-                if c_.endswith(' Units') and isinstance(srow[c_], str):
-                    want_rows += [(srow['ID'], c_[:-6], 'Bin Centers'), (srow['ID'], c_[:-6], 'Counts')]
+                if units_channel(c_) and isinstance(srow[c_], str):
+                    want_rows += [(srow['ID'], units_channel(c_), 'Bin Centers'), (srow['ID'], units_channel(c_), 'Counts')]
         hc = list(h.columns[:3])
         got_rows, last = [], [None, None]
         for _, hr in h.iterrows():
